@@ -113,14 +113,34 @@ def child_main(args):
 
 
 def split(units, jobs):
-    # longest-processing-time first on the optional 'cost' field
-    order = sorted(range(len(units)), key=lambda i: -float(units[i].get("cost", 1)))
+    # longest-processing-time first on the optional 'cost' field; units that carry the same optional 'group'
+    # stay together, in order, in one child process (objects of the same shape built one after the other:
+    # state shared through module-level caches becomes observable)
+    bundles = {}
+    for i, u in enumerate(units):
+        bundles.setdefault(u.get("group", f"\0single{i}"), []).append(u)
+    # big groups are cut into runs of at most 6 members so that one shard does not get all the work
+    # (and of at most half a shard's fair share of the cost)
+    fair = sum(float(u.get("cost", 1)) for u in units) / max(1, jobs) / 2
+    items = []
+    for b in bundles.values():
+        cur, c = [], 0.0
+        for u in b:
+            w = float(u.get("cost", 1))
+            if cur and (len(cur) >= 6 or c + w > fair):
+                items.append(cur)
+                cur, c = [], 0.0
+            cur.append(u)
+            c += w
+        if cur:
+            items.append(cur)
+    items.sort(key=lambda b: -sum(float(u.get("cost", 1)) for u in b))
     loads = [0.0] * jobs
     shards = [[] for _ in range(jobs)]
-    for i in order:
+    for b in items:
         j = loads.index(min(loads))
-        shards[j].append(units[i])
-        loads[j] += float(units[i].get("cost", 1))
+        shards[j].extend(b)
+        loads[j] += sum(float(u.get("cost", 1)) for u in b)
     return [s for s in shards if s]
 
 
